@@ -117,7 +117,16 @@ def check_with_lines(fx, rep, rule, impl, path, key_prefix):
         v0 = res[0][1][1]
         if v0[0] in ("mcall", "call") and v0[1].endswith("Iterator::find_map") and len(v0[2]) == 2 and v0[2][1][0] == "closure":
             fm = v0
-    if len(sy.loop_order) != 1 and fm is None:
+    fnd = None
+    if len(sy.loop_order) == 0 and fm is None:
+        # `let member = members.find(|m| <covers the line>)?; Some(<frame from member>)`: rejected entries are skipped, the first
+        # accepted one is used, exhausted -> None. (Only sound when everything after the find is infallible: a later `?`/None would
+        # END the answer here where the loop form `continue`s - such paths are reported below as a value that is not a frame.)
+        finds = {e[:3] for st_, o_ in res for e in st_.effects if e[0] == "call" and e[1].endswith("Iterator::find") and len(e[2]) == 2
+                 and e[2][0][0] in ("place", "in") and e[2][1][0] == "closure"}
+        if len({(e[1], e[2][0], e[2][1][1]) for e in finds}) == 1:
+            fnd = sorted(finds, key=repr)[0]
+    if len(sy.loop_order) != 1 and fm is None and fnd is None:
         rep.undecidable(rule, "%s/shape/%s" % (key_prefix, impl), loc=F.short_file(b["sp"]),
                         construct="%d loops in the with-lines iterator (expected exactly one)" % len(sy.loop_order))
         return
@@ -140,6 +149,51 @@ def check_with_lines(fx, rep, rule, impl, path, key_prefix):
         lp.append((endst, (S.BRK, S.UNIT)))
         L = dict(paths=lp, entry=S.St(), node=b["body"], index=0, pre=None, find_map=fm)
         res = [(S.St(), (S.VAL, S.NONE))]       # after exhaustion find_map yields None
+    elif fnd is not None:
+        try:
+            pp = sy.apply(fnd[2][1], [R.ELEM], S.St(), {"sp": "?"})
+        except S.Undecidable as e:
+            rep.undecidable(rule, "%s/shape/%s" % (key_prefix, impl), loc="", construct=e.msg)
+            return
+        some_c = (("is", R.NEXT, "Some"), True)
+        lp = []
+        tails = []
+
+        def is_find(t):
+            return t[0] == "mcall" and t[1].endswith("Iterator::find") and t[2] == fnd[2]
+
+        def rwf(t):
+            if t[0] == "payload" and t[2] == "Some" and is_find(t[1]):
+                return R.ELEM
+            return None
+        verdicts = []
+        for pst, (pk, pv) in pp:
+            if pst.effects:
+                rep.undecidable(rule, "%s/shape/%s" % (key_prefix, impl), loc=F.short_file(b["sp"]), construct="find predicate with effects")
+                return
+            if pv in (S.TRUE, S.FALSE):
+                verdicts.append((tuple(pst.conds), pv == S.TRUE))
+            else:
+                at = pv if pv[0] in ("bool", "eq", "lt", "is", "empty", "not") else ("bool", pv)
+                verdicts.append((tuple(pst.conds) + ((at, True),), True))
+                verdicts.append((tuple(pst.conds) + ((at, False),), False))
+        for pconds, keep in verdicts:
+            if not keep:
+                st2 = S.St(conds=(some_c,) + pconds)
+                lp.append((st2, (S.CONT, S.UNIT)))
+        for st_, (k_, v_) in res:
+            fa = [(a_, p_) for a_, p_ in st_.conds if a_[0] == "is" and a_[2] == "Some" and is_find(a_[1])]
+            rest = tuple((fc.rewrite(a_, rwf), p_) for a_, p_ in st_.conds if not (a_[0] == "is" and a_[2] == "Some" and is_find(a_[1])))
+            if fa and fa[0][1]:
+                for pconds, keep in verdicts:
+                    if keep:
+                        st2 = S.St(conds=(some_c,) + pconds + rest)
+                        lp.append((st2, (S.RET, fc.rewrite(v_, rwf))))
+            else:
+                tails.append((S.St(conds=rest), (S.VAL, v_)))
+        lp.append((S.St(conds=((("is", R.NEXT, "Some"), False),)), (S.BRK, S.UNIT)))
+        L = dict(paths=lp, entry=S.St(), node=b["body"], index=0, pre=None, find_map=fnd)
+        res = tails
     else:
         L = sy.loops[sy.loop_order[0]]
         L = unfold_filter_driver(sy, L)
